@@ -1381,7 +1381,8 @@ theorem c19k_exKeyCoef :
   decide +kernel
 
 theorem c19k_exSigma (p : Nat) (hp : p < 2) : c04k_sigma 2 3 c04k_exS p = if p = 0 then 1 else 1 := by
-  interval_cases p <;> simp [c04k_sigma, c04k_chi, Finset.sum_range_succ, c04k_exS]
+  interval_cases p
+  all_goals simp [c04k_sigma, c04k_chi, Finset.sum_range_succ, c04k_exS]
 
 theorem c19k_exKeyEq : c04k_KeyEq c04t_exKL 1 c19k_exKey c04k_exS (c04k_sigma c04t_exKL.n 3 c04k_exS) c04k_exE c04k_exG := by
   obtain ⟨k1, k2, k3, k4⟩ := c19k_exKeyCoef
@@ -1723,5 +1724,28 @@ theorem fieldTrace_noisy_nonvacuous :
     exact ⟨ct', h⟩
   · obtain ⟨ct', _, h, _⟩ := fieldTrace_noisy_bgv c04k_exLevelOf 0 (c19k_exCtOK true) c04t_exBgvData rfl hkeys hA he
     exact ⟨ct', h⟩
+
+/-- NON-VACUITY of the L2 hypotheses: on the same concrete world (N = 2, q = 13, P = 17), two coefficient-form leaves, one merge
+    layer (L = 1, Galois element 3, the genuine key `c19k_exKey`), BFV: `pack_noisy` applies, so the model's pack succeeds. -/
+theorem pack_noisy_nonvacuous :
+    ∃ res, c19k_packCt c04t_exKL c04k_exLevel .bfv c19k_exKeys (fun _ => .ok (c04t_exCt false)) 1 = .ok res := by
+  obtain ⟨_, v13⟩ := c04t_exMod_wf (v := 13) (by decide) (by decide)
+  have hA : ∀ i, i < c04k_exLevel.size → (c04t_exKL.m i).value ≤ 13 := fun i hi => by
+    have hi1 : i < 1 := hi
+    interval_cases i; exact le_of_eq v13
+  have hin := c04k_exKSInput' false
+  obtain ⟨res, _, _, h, _⟩ := pack_noisy (kl := c04t_exKL) (l := c04k_exLevel) c04k_exLevelOf hin.hkl hin.hd
+    (scheme := .bfv) (fun h => absurd rfl h) (Or.inl rfl) (keys := c19k_exKeys)
+    (leaves := fun _ => .ok (c04t_exCt false)) (L := 1) (le_refl _) (f := 1)
+    (fun _ => ⟨c04t_exCt false, rfl, c19k_exCtOK false, rfl, rfl⟩)
+    (s := c04k_exS) (em := fun _ => c04k_exE) (et := fun _ => c04k_exE) (Gm := fun _ => c04k_exG) (Gt := fun _ => c04k_exG)
+    (fun lam hlam => by
+      interval_cases lam
+      exact ⟨c19k_exKey, rfl, c19k_exKeyOK, c19k_exKeyEq⟩)
+    (fun i hi => absurd hi (by show ¬ i < 1 - 1; omega))
+    (A := 13) (Be := 1) hA
+    (fun _ _ d _ p _ => by simp only [c04k_exE]; split <;> [decide; (split <;> decide)])
+    (fun _ _ d _ p _ => by simp only [c04k_exE]; split <;> [decide; (split <;> decide)])
+  exact ⟨res, h⟩
 
 end HC
